@@ -513,7 +513,17 @@ def calculate_chunk_decomposition(s_start, s_end, indices, value_chunk_size, sub
 
 
 def ordered_map_valid_indexed_stream(data_field, map_field, result_field,
-                                     invalid=-1, chunksize=DEFAULT_CHUNKSIZE, value_factor=8):
+                                     invalid=-1, chunksize=DEFAULT_CHUNKSIZE, value_factor=None):
+    if value_factor is None:
+        # size the value buffer (chunksize * value_factor bytes) for the longest entry of the source,
+        # and at least as large as it used to be by default
+        value_factor = 8
+        src_indices = data_field.indices
+        for start in range(0, len(src_indices) - 1, chunksize):
+            offsets = src_indices[start:start + chunksize + 1]
+            if len(offsets) > 1:
+                longest = int(np.max(offsets[1:] - offsets[:-1]))
+                value_factor = max(value_factor, -(-longest // chunksize))
     result_indices = np.zeros(chunksize, dtype=np.int64)
     result_field.indices.write(result_indices[:1])
     result_values = np.zeros(chunksize * value_factor, dtype=np.uint8)
